@@ -7,6 +7,8 @@ import XrlCpp.Gen.Tables
 * `wrap <releases 0|1> <E | F<code>> <resBlocks> <kept> [<message, %-escaped>]`
   — the observed behaviour of one C call; answers what `wrap Gen.pe` says the wrapper does:
   `ret <live>` or `throw <class> <live> <m<message> | ->`.
+* `wrapw <C function> <releases> <E | F<code>> <resBlocks> <kept> [<message>]` — the same, through the extracted table
+  entry that forwards to `<C function>`: an entry without the `_process_error` statement returns instead of throwing.
 * `hist <op>*` with ops `g<c>` get, `n<c>` make, `c<i>` copy, `d<i>` destroy, `k<i>` call, `p<c>` pod, `r<i>` read
   — answers `ok <event>* L<live C objects>` (`u` unit, `s` skipped, `v<c>` value) or `fault <kind>`.
 -/
@@ -29,6 +31,23 @@ def doWrap (t : List String) : String :=
     | .error x => s!"throw {kindName x.kind} {r.live} " ++ (match x.what with | some m => "m" ++ m | none => "-")
   | _ => "bad-line"
 
+/-- `wrapw <C function> …`: the same through the table entry that forwards to `<C function>` (its `checked` flag);
+    no such entry: the plain protocol -/
+def doWrapW (t : List String) : String :=
+  match t with
+  | callee :: rel :: slot :: rb :: kept :: rest =>
+    match Gen.wrappers.find? (fun w => w.callee == callee && w.kind != .pattern && w.kind != .delegate) with
+    | none => doWrap (rel :: slot :: rb :: kept :: rest)
+    | some w =>
+      let msg := rest.headD ""
+      let s : Slot := if slot == "E" then .empty else .full ⟨(slot.drop 1).toNat!, msg⟩
+      let f : CFun Unit Unit := fun _ => { val := (), slot := s, resBlocks := rb.toNat!, kept := kept.toNat! }
+      let r := wrapEntry Gen.pe w ({ conv := fun u => u, releases := rel == "1" } : Conv Unit Unit) f ()
+      match r.out with
+      | .ok _ => s!"ret {r.live}"
+      | .error x => s!"throw {kindName x.kind} {r.live} " ++ (match x.what with | some m => "m" ++ m | none => "-")
+  | _ => "bad-line"
+
 def parseOp (s : String) : Option Op :=
   let n := (s.drop 1).toNat!
   match s.front with
@@ -48,6 +67,7 @@ partial def loop (h : IO.FS.Stream) (out : IO.FS.Stream) : IO Unit := do
   let t := ((l.replace "\n" "").splitOn " ").filter (· ≠ "")
   match t with
   | "wrap" :: r => out.putStrLn (doWrap r)
+  | "wrapw" :: r => out.putStrLn (doWrapW r)
   | "hist" :: r => out.putStrLn (doHist r)
   | _ => out.putStrLn "bad-line"
   loop h out
